@@ -33,7 +33,7 @@ RULE = ("history: sequences of <= 6 request bodies over %d kinds (1.0-form / 2.0
         "empty body): all sequences of length <= 2 (quick) / <= 3 (thorough), longer ones random, x (own Config 1.0, own Config "
         "2.0, DEFAULT as server config) x 3 dispatch kinds, non-default contents in both tables; snapshot of server Config and "
         "DEFAULT (6 attributes, identity and contents of classes / serialize_handlers) and list of attribute / table writes "
-        "after each request. config: every single operation and every pair of the 10 operations on copy / original, random "
+        "after each request. config: every single operation (original = a fresh Config, a copy, a copy of a copy) and every pair of the 10 operations on copy / original, random "
         "sequences of <= 8 operations (before and after copy()), snapshots of both objects after each. threads: 2-4 real "
         "threads x 3 rounds on one dispatcher. Non-trivial: history exercising the compatibility copy or of length >= 2; "
         "config case with >= 1 operation. Distinct by case hash." % len(CS.KINDS))
@@ -219,6 +219,10 @@ class History(pipeline.Stream):
 
 # ====================================================================== config
 
+def _delta(before, after):
+    return "; ".join("%s: %r -> %r" % (k, before[k], after[k]) for k in before if before[k] != after[k])
+
+
 class ConfigOps(pipeline.Stream):
     name = "config"
     model_imports = "Dispatch Config"
@@ -231,8 +235,8 @@ class ConfigOps(pipeline.Stream):
         self.C = C
         self.gen_ua = CS.default_user_agent()
 
-    def make(self, fields, pre, ops):
-        return {"fields": list(fields), "classes": CS.SERVER_TABLES[0], "handlers": CS.SERVER_TABLES[1],
+    def make(self, fields, pre, ops, depth=0):
+        return {"fields": list(fields), "classes": CS.SERVER_TABLES[0], "handlers": CS.SERVER_TABLES[1], "depth": depth,
                 "pre": [list(o) for o in pre], "ops": [[bool(b), list(o)] for b, o in ops]}
 
     def gen(self, tier, rng):
@@ -241,7 +245,8 @@ class ConfigOps(pipeline.Stream):
         fixed = CS.fixed_ops()
         both = [(b, o) for b in (True, False) for o in fixed]
         for x in both:
-            cases.append(self.make(base, [], [x]))
+            for depth in (0, 1, 2):          # the original may itself be a copy (of a copy)
+                cases.append(self.make(base, [], [x], depth))
         for x, y in itertools.product(both, repeat=2):
             cases.append(self.make(base, [], [x, y]))
         # a user agent that is None when copy() runs; attributes of every type
@@ -252,7 +257,7 @@ class ConfigOps(pipeline.Stream):
                       rng.choice(CS.VALUES), rng.choice(CS.VALUES)]
             pre = [CS.random_op(rng) for _ in range(rng.randint(0, 3))]
             ops = [(rng.random() < 0.5, CS.random_op(rng)) for _ in range(rng.randint(1, 8))]
-            cases.append(self.make(fields, pre, ops))
+            cases.append(self.make(fields, pre, ops, rng.choice([0, 0, 1, 2])))
         return cases
 
     def _observe(self, cfg, ids):
@@ -270,6 +275,8 @@ class ConfigOps(pipeline.Stream):
             a.classes[k] = v
         for k, v in case["handlers"]:
             a.serialize_handlers[k] = v
+        for _ in range(case.get("depth", 0)):
+            a = a.copy()
         for o in case["pre"]:
             CS.apply_op(a, o)
         b = a.copy()
@@ -283,9 +290,6 @@ class ConfigOps(pipeline.Stream):
         return {"steps": steps, "shared": shared}
 
     def oracle(self, case, obs):
-        for what, sh in sorted(obs["shared"].items()):
-            if sh:
-                return ("C13:copy-shares-" + what, "copy() returned a configuration that shares its %s with the original" % what)
         a0, b0 = obs["steps"][0]
         # a copy: the same attributes (a missing user agent is generated) and the same table contents
         for f, x, y in zip(CS.FIELDS, a0["fields"], b0["fields"]):
@@ -301,9 +305,9 @@ class ConfigOps(pipeline.Stream):
             pa, pb = obs["steps"][i]
             na, nb = obs["steps"][i + 1]
             if on_copy and na != pa:
-                return ("C13:original-changed-by-copy:" + o[0], "op %d %r on the copy changed the original: %r -> %r" % (i, o, pa, na))
+                return ("C13:original-changed-by-copy:" + o[0], "op %d %r on the copy changed the original: %s" % (i, o, _delta(pa, na)))
             if not on_copy and nb != pb:
-                return ("C13:copy-changed-by-original:" + o[0], "op %d %r on the original changed the copy: %r -> %r" % (i, o, pb, nb))
+                return ("C13:copy-changed-by-original:" + o[0], "op %d %r on the original changed the copy: %s" % (i, o, _delta(pb, nb)))
         return None
 
     def encode(self, case, obs):
@@ -317,10 +321,11 @@ class ConfigOps(pipeline.Stream):
 
     def kind(self, case, obs):
         n = len(case["ops"])
-        return "ops=%s%s" % (n if n <= 2 else ">2", " pre" if case["pre"] else "")
+        return "ops=%s%s depth=%d" % (n if n <= 2 else ">2", " pre" if case["pre"] else "", case.get("depth", 0))
 
     def describe(self, case, obs):
-        return {"fields": ser.to_json(case["fields"]), "pre": case["pre"], "ops": case["ops"], "shared": obs["shared"],
+        return {"fields": ser.to_json(case["fields"]), "copies_before": case.get("depth", 0), "pre": case["pre"], "ops": case["ops"],
+                "shared": obs["shared"],
                 "steps": ser.to_json([[a, b] for a, b in obs["steps"]])}
 
     def shrink(self, case):
@@ -328,6 +333,8 @@ class ConfigOps(pipeline.Stream):
             yield dict(case, ops=case["ops"][:i] + case["ops"][i + 1:])
         for i in range(len(case["pre"])):
             yield dict(case, pre=case["pre"][:i] + case["pre"][i + 1:])
+        if case.get("depth", 0):
+            yield dict(case, depth=case["depth"] - 1)
 
 
 # ====================================================================== real threads (oracle only)
